@@ -236,7 +236,7 @@ static void family_tasks(std::vector<Task>& tasks, const Config& cfg, const std:
   const bool is_req = fam.find("req") == 0;
   if (is_req) for (int si = 0; si < 3; ++si) {   // lengths sized so that each completes within the tier budget on the idle machine
     const char* shp[] = {"sorted", "zigzag", "mixed"};
-    QuantSys<Fam> sys; const int ln = cfg.quick() ? (si == 2 ? 280 : 460) : (si == 0 ? 900 : si == 1 ? 700 : 500); sys.nm = tag + "/long-smalldomain-" + shp[si] + "/n" + str(ln); sys.slot_cfgs.push_back(base); sys.light_check = true; sys.check_published = true;
+    QuantSys<Fam> sys; const int ln = cfg.quick() ? (si == 2 ? 280 : 460) : (si == 0 ? 900 : si == 1 ? 640 : 500); sys.nm = tag + "/long-smalldomain-" + shp[si] + "/n" + str(ln); sys.slot_cfgs.push_back(base); sys.light_check = true; sys.check_published = true;
     std::vector<std::string> dn; distinct_domain(sys, 6, dn); sys.add_update_ops(0, false);
     std::vector<int> ix = shape_idx(shp[si], ln); std::vector<std::string> seq; for (int i = 0; i < ln; ++i) seq.push_back("U0:" + dn[(size_t)((long long)ix[i] * 6 / ln)]);
     Task t; t.name = sys.nm; t.fn = [sys, seq, &cfg](Report& rep) { live_history<Fam>(sys, seq, 0, 20, rep, cfg); }; tasks.push_back(t);
